@@ -20,28 +20,46 @@ LEVEL_TEXT = ("Coq theorems over an executable model of the four sampling utilit
               "proved as _refuted theorems about definitions of the former code. Tiled choice uses every option q or q+1 times; an axis "
               "shuffle permutes the values inside every slice produced by sliceaxisix, the slices being pairwise disjoint and covering the "
               "array; outcross shuffling preserves the multiset, never raises the duplicate count, needs at most score+1 passes for every "
-              "oracle and stops only at a 2-exchange local optimum. The model (bit-exact binary64 for pointer distance, pointers and "
-              "cumulative sums) is evaluated inside Coq against the implementation's outputs on generated inputs with scripted draws")
+              "oracle and stops only at a 2-exchange local optimum (a second call then leaves the table alone after one pass); stochastic "
+              "universal sampling is invariant under a common positive scaling of weights and offset. The expressions on which these "
+              "theorems turn (the early return k == 0, tot_fit / k, offset + ptr_dist * arange(k), count_nonzero(p > 0.0) - 1, the while "
+              "test (ix < last) and (cumsum[ix] <= ptr), the argument order of rng.uniform; divmod(nsample, noption) and the slice bounds "
+              "of the tiles; numpy.sum(c-1), score < gbest_score, the unfiltered exchange list, the exchange statement and its undo, "
+              "iterate = not local_optima; the argument order of sliceaxisix and its leaf test) are regenerated from the source on every "
+              "run (Gen/C17_Kernel.v), the four utilities are assembled from them (Model/C17_KernelProg.v), the assembled programs are "
+              "proved equal to the hand model for all inputs, and the property theorems are restated about them, so that a changed "
+              "expression breaks the proof build whatever the sampled cases exercise; the binary64 comparisons of the source are proved "
+              "to be the exact-value comparisons of the model on finite doubles. The model (bit-exact binary64 for pointer distance, "
+              "pointers and cumulative sums) is evaluated inside Coq against the implementation's outputs on generated inputs with scripted draws")
 LEVEL_NOTE = ("trusted: Coq kernel + vm_compute, PrimFloat primitives (Prim2SF gives the exact value of a double); numpy's sum of "
               "fewer than 8 doubles is left-to-right (checked differentially), longer weight vectors are generated with exact sums; "
               "scripted numpy Generator stands for every generator state (draw values are universally quantified in the theorems); "
               "theorems are about the Gallina model, the tie to the code is differential on generated inputs; a second stream with real "
-              "PCG64 generators is checked by the independent predicate only")
+              "PCG64 / RandomState generators is checked by the independent predicate only; the kernel translator "
+              "(harness/translate/c17_kernel.py over pyexpr.py) is trusted to render the located expressions faithfully and pins the "
+              "statement shapes around them textually (fail closed: any other shape is reported as a broken correspondence)")
 TECHNIQUE = "Coq proof over an executable model (Q + PrimFloat); in-Coq vm_compute correspondence with the implementation"
 PROPS = "Props/C17.v"
 IMPORTS = "From Coq Require Import PrimFloat.\nFrom PV Require Import Lib.Common Model.C17_Sampling."
 SHARD = 40
-RULE = ("case = (function in {sus, tiled, axis, sliceaxisix, outcross}, arguments, scripted draws | PCG64 seed); one PRNG; "
-        "sus: 1..12 weights from {small integers with ties, zeros, dyadic grid, m*2^e with e in -20..20, arbitrary doubles for n<8}, "
-        "sizes 1..12/49/98 as int or tuple shapes (incl. () and shapes with a zero extent), offsets {0, pred(tot/k) (preferred when a weight is zero), "
-        "mid, random, placed on a cumulative-weight boundary}; tiled: 0..6 options, sizes 0..20 and 2-D shapes, with/without replacement, with/without p; axis: 1-3 dimensions of "
-        "extent 0..4, every axis subset incl. all, negative and out-of-range axes, C/F/strided views; outcross: 0..4 x 0..4 tables from a small "
-        "pool of individuals, C/transposed/strided views, score+1 scripted exchange-order permutations; non-trivial = weights/values not all "
+RULE = ("case = (function in {sus, sus_session, tiled, axis, sliceaxisix, outcross, audit}, arguments, scripted draws | PCG64 or RandomState seed); one PRNG; "
+        "every scripted case may pass rng=None with the scripted generator installed as the module's global generator; "
+        "sus: 1..12 weights from {small integers with ties, zeros, dyadic grid, m*2^e with e in -20..20, whole vectors scaled by 2^-60..2^-30 or 2^20..2^40 "
+        "with exact zeros next to the tiny weights, arbitrary doubles for n<8} or 13..300 small-integer weights, "
+        "sizes 1..12/49/98/130/200/260 as int or tuple shapes (incl. () and shapes with a zero extent), offsets {0, pred(tot/k) (preferred when a weight is zero), "
+        "mid, random, placed on a cumulative-weight boundary}; sus_session: 2-3 calls on the same element and weight arrays, weights overwritten in place in between; "
+        "tiled: 0..6 or 130..260 options of dtype int64/int32/int16/float64, sizes 0..20, up to 2n+3 and 2-D shapes, with/without replacement, with/without p; axis: 1-3 dimensions of "
+        "extent 0..4, every axis subset incl. all, negative and out-of-range axes, C/F/strided views, and the documented TypeErrors (list/None axis, list array, foreign rng); "
+        "outcross: 0..4 x 0..4 tables from a small pool of individuals (labels also shifted beyond int8/uint8/int32 or colliding modulo 2^8/2^16/2^32), C/transposed/strided views, "
+        "score+1 scripted exchange-order permutations, followed by a second call on the result; results are checked for memory shared with the inputs; "
+        "audit: the public functions of the module and their parameters must be exactly the ones driven here; non-trivial = weights/values not all "
         "equal and output size >= 2; distinct by SHA-256 of the case")
 TRUSTED = ["numpy float64 elementwise + - * / and comparisons are IEEE-754 binary64 (modelled by Coq PrimFloat)",
            "numpy.ndarray.sum of < 8 doubles adds left to right; for >= 8 weights the generator only produces vectors whose partial sums are exact",
            "numpy.cumsum adds left to right",
-           "rngscript.Scripted: shuffle(x) with script pm sets x[i] = x[pm[i]]; choice returns a[ix] for the scripted index list"]
+           "rngscript.Scripted: shuffle(x) with script pm sets x[i] = x[pm[i]]; choice returns a[ix] for the scripted index list",
+           "harness/translate/c17_kernel.py + pyexpr.py: the kernel expressions are located by function and statement shape and rendered into Gallina (Q, Z and PrimFloat sorts); "
+           "Python's tuple assignment evaluates its right-hand side first; numpy.unique(row, return_counts=True) returns the multiplicities of the distinct values"]
 ASSUMPTIONS = ["weights finite, non-negative, positive sum (the documented restrictions of stochastic_universal_sampling)",
                "the uniform offset lies in [0, tot/k) as numpy's Generator.uniform(0, high) guarantees for high > 0",
                "axis values of axis_shuffle are judged by the predicate only when they lie in 0..ndim-1 (negative values are silently ignored by the code: modelled, reported)"]
@@ -229,6 +247,9 @@ def _outcross_case(rng, tier, seeded=False):
     else: x = [[(i + j) % max(m, 1) for j in range(m)] for i in range(nc)]
     if rng.random() < 0.2:
         off = rng.choice([-3, 126, 254, 1000, 2 ** 31 - 3]); x = [[v + off for v in r] for r in x]   # labels beyond narrow integer types
+    elif rng.random() < 0.15:
+        # distinct individuals whose labels collide in a narrower integer type
+        x = [[v + rng.choice([0, 0, 256, 65536, 2 ** 32]) for v in r] for r in x]; kind = "wrap"
     layout = rng.choice(["C", "C", "T", "strided"])
     case = {"fn": "outcross", "x": x, "nc": nc, "m": m, "xkind": kind, "layout": layout}
     if seeded:
@@ -653,6 +674,9 @@ def _pred_sus(case, out):
             bad.append("element %d selected %d times, expected count %s (floor %d, ceil %d)%s" % (i, c, float(e), _floor(e), _ceil(e), far))
     if not out["inputs_unchanged"]: bad.append("input arrays modified")
     if out.get("aliases"): bad.append("the result shares memory with an input array")
+    if "left" in out and k > 0 and out["left"] != [0, 0]:
+        bad.append("the offset and the shuffle were not both drawn from the generator in use (%s): requests %r"
+                   % ("rng=None: the module's global generator" if case.get("rng_none") else "the rng argument", [e[0] for e in out.get("log", [])]))
     return bad
 
 def _pred_session(case, out):
@@ -692,6 +716,9 @@ def _pred_tiled(case, out):
         if max(cnt) - min(cnt) > 1: bad.append("option usage differs by more than one: %r" % cnt)
     if not out["inputs_unchanged"]: bad.append("option array modified")
     if out.get("aliases"): bad.append("the result shares memory with the option array")
+    if "left" in out and out["left"] != [0, 0]:
+        bad.append("the draws were not all taken from the generator in use (%s): requests %r"
+                   % ("rng=None: the module's global generator" if case.get("rng_none") else "the rng argument", [e[0] for e in out.get("log", [])]))
     want = str(numpy.dtype(case.get("adtype", "int64")))
     if out.get("dtype") != want: bad.append("the result has dtype %s, the options have dtype %s" % (out.get("dtype"), want))
     return bad
